@@ -307,7 +307,9 @@ def _fmt_env(env):
     return "{" + ",".join(f"{k}={v}" for k, v in sorted(env.items())) + "}"
 
 
-def compare_expr(a, b, points) -> Cmp:
+def compare_expr(a, b, points, exact=False) -> Cmp:
+    """exact=True demands identical rational values (used where no rounding is
+    licensed, e.g. printing and re-parsing a tree)."""
     out = Cmp()
     for env in points:
         try:
@@ -316,6 +318,8 @@ def compare_expr(a, b, points) -> Cmp:
         except EvalSkip:
             continue
         c = close(v1, s1, v2, s2)
+        if exact and c != "eq":
+            c = "diff"
         out.checked += 1
         if c == "indet":
             out.indet += 1
@@ -364,6 +368,33 @@ def affine_root(root, var, env):
     if d1 == 0:
         return ("identity", None) if g[0] == 0 else ("never", None)
     return ("root", -g[0] / d1)
+
+
+def compare_eqn_exact(a, b, points, planted) -> Cmp:
+    """Both sides of the two equations take identical values at every point."""
+    out = Cmp()
+    names = sorted(set(variables_of(a)) | set(variables_of(b)))
+    pts = []
+    for env in planted:
+        e2 = {v: Fraction(1) for v in names}
+        e2.update(env)
+        pts.append(e2)
+    pts.extend(points)
+    for env in pts:
+        for side in ("left", "right"):
+            try:
+                v1, _ = ev(getattr(a, side), env)
+                v2, _ = ev(getattr(b, side), env)
+            except EvalSkip:
+                continue
+            out.checked += 1
+            if v1 != v2:
+                out.verdict = "diff"
+                out.witness = f"{side} side at {_fmt_env(env)}: {float(v1)!r} vs {float(v2)!r} (exact difference {float(v1 - v2)!r})"
+                return out
+    if out.checked == 0:
+        out.verdict = "unchecked"
+    return out
 
 
 def compare_eqn(a, b, points, planted, rng) -> Cmp:
